@@ -41,3 +41,141 @@ pub proof fn thm_c07_idempotent(x: Factors, d: UserWF<RenNrenCo2>, r1: Result<Fa
         }
     }
 }
+
+// ------------------------------------------------------------------------------------------------ completeness
+/// every carrier the building uses is a carrier of the factor set
+pub open spec fn carriers_covered(cs: Seq<Energy>, w0: Seq<Factor>) -> bool { forall|c: Carrier| in_avail(cs, c) ==> #[trigger] carrier_in(w0, c) }
+pub proof fn lemma_prefix_has(f: Seq<Factor>, n: int, c: Carrier, s: Source, d: Dest, st: Step)
+    requires 0 <= n <= f.len(), find_spec(f.take(n), c, s, d, st) is Some,
+    ensures find_spec(f, c, s, d, st) is Some,
+{
+    lemma_find_split(f, n, c, s, d, st);
+}
+/// a prepared set, with the derived cogeneration factors of the evaluation added, has every factor the weighting step of a carrier of
+/// the building looks up
+pub proof fn lemma_c07_has(x: Factors, d: UserWF<RenNrenCo2>, r: Result<Factors>, f: Seq<Factor>, cs: Seq<Energy>, c: Carrier, s: Source, dd: Dest, st: Step)
+    requires norm_post(x, d, r), r is Ok, cgn_added(r->Ok_0.wdata@, f, cs),
+             // the key is one of: grid supply of a carrier of the set; anything of an on-site pair; a cogeneration export key when there is cogenerated electricity
+             (s == Source::RED && dd == Dest::SUMINISTRO && st == Step::A && carrier_in(x.wdata@, c))
+             || ((exists|j: int| 0 <= j < 3 && c == exp_pair(j).0 && s == exp_pair(j).1) && (dd == Dest::SUMINISTRO ==> st == Step::A))
+             || (c == Carrier::ELECTRICIDAD && s == Source::COGEN && dd != Dest::SUMINISTRO && has_cgn_prod(cs)),
+    ensures has_fp(f, c, s, dd, st),
+{
+    let w = r->Ok_0.wdata@;
+    let n = w.len() as int;
+    if has_cgn_prod(cs) { assert(f.take(n) == w); } else { assert(f == w); assert(f.take(n) =~= w); }
+    if s == Source::RED && dd == Dest::SUMINISTRO && st == Step::A && carrier_in(x.wdata@, c) {
+        assert(find_spec(w, c, Source::RED, Dest::SUMINISTRO, Step::A) is Some);
+        lemma_prefix_has(f, n, c, s, dd, st);
+    } else if (exists|j: int| 0 <= j < 3 && c == exp_pair(j).0 && s == exp_pair(j).1) && (dd == Dest::SUMINISTRO ==> st == Step::A) {
+        let j = choose|j: int| 0 <= j < 3 && c == exp_pair(j).0 && s == exp_pair(j).1;
+        assert(exp_complete(w, j));
+        assert(s == Source::INSITU);
+        assert(find_spec(w, c, s, dd, st) is Some) by {
+            match dd { Dest::SUMINISTRO => { match st { Step::A => {}, Step::B => {} } }, Dest::A_RED => { match st { Step::A => {}, Step::B => {} } }, Dest::A_NEPB => { match st { Step::A => {}, Step::B => {} } } }
+        }
+        lemma_prefix_has(f, n, c, s, dd, st);
+    } else {
+        // the five derived factors
+        lemma_find_split(f, n, c, s, dd, st);
+        if find_spec(w, c, s, dd, st) is None {
+            let t = f.skip(n);
+            assert(t.len() == 5);
+            assert(t[0] == f[n] && t[1] == f[n + 1] && t[2] == f[n + 2] && t[3] == f[n + 3] && t[4] == f[n + 4]);
+            lemma_find5(t, c, s, dd, st);
+        }
+    }
+}
+
+/// a production source of carrier c is one of the on-site pairs (ELECTRICIDAD / EAMBIENTE / TERMOSOLAR, INSITU) or cogenerated electricity
+pub proof fn lemma_src_pair(src: ProdSource)
+    ensures ps_source(src) == Source::COGEN ==> ps_carrier(src) == Carrier::ELECTRICIDAD,
+            ps_source(src) != Source::COGEN ==> ps_source(src) == Source::INSITU && exists|j: int| 0 <= j < 3 && ps_carrier(src) == exp_pair(j).0 && Source::INSITU == exp_pair(j).1,
+{
+    match src {
+        ProdSource::EL_INSITU => { assert(exp_pair(0) == (Carrier::ELECTRICIDAD, Source::INSITU)); }
+        ProdSource::EL_COGEN => {}
+        ProdSource::EAMBIENTE => { assert(exp_pair(1) == (Carrier::EAMBIENTE, Source::INSITU)); }
+        ProdSource::TERMOSOLAR => { assert(exp_pair(2) == (Carrier::TERMOSOLAR, Source::INSITU)); }
+    }
+}
+/// THE C07 COMPLETENESS THEOREM: a building whose carriers are all carriers of the factor set is weighted without a missing factor - the
+/// weighting step of every one of its carriers finds every factor it looks up in the prepared set (plus the derived cogeneration factors)
+pub proof fn thm_c07_complete(x: Factors, d: UserWF<RenNrenCo2>, r: Result<Factors>, f: Seq<Factor>, cs: Seq<Energy>, c: Carrier, a: Run, lm: bool)
+    requires norm_post(x, d, r), r is Ok, cgn_added(r->Ok_0.wdata@, f, cs), carriers_covered(cs, x.wdata@),
+             comps_wf(cs), in_avail(cs, c), run_ok(a, lm), a.cs == filter_carrier(cs, c),
+    ensures we_factors_ok(f, c, a.exp, a.del),
+{
+    let n = nsteps(cs);
+    lemma_filter_carrier(cs, c, n);
+    assert(carrier_in(x.wdata@, c));
+    lemma_c07_has(x, d, r, f, cs, c, Source::RED, Dest::SUMINISTRO, Step::A);
+    // on-site supply: only carriers that can be produced on site have it
+    if rv(a.del.onst_an) != 0real {
+        lemma_sumf_nonzero(a.del.onst_t@);
+        let i = choose|i: int| 0 <= i < a.del.onst_t@.len() && rv(#[trigger] a.del.onst_t@[i]) != 0real;
+        assert(rv(a.del.onst_t@[i]) == onsite_sum(a.prod.by_src_t@, i));
+        let m = a.prod.by_src_t@;
+        let src = if m.contains_key(ProdSource::EL_INSITU) { ProdSource::EL_INSITU } else if m.contains_key(ProdSource::TERMOSOLAR) { ProdSource::TERMOSOLAR } else { ProdSource::EAMBIENTE };
+        assert(m.contains_key(src));
+        lemma_src_component(cs, c, a, lm, src);
+        lemma_src_pair(src);
+        lemma_c07_has(x, d, r, f, cs, c, Source::INSITU, Dest::SUMINISTRO, Step::A);
+    }
+    // export factors of every source that produces for this carrier - looked up only when something is exported, which needs a step
+    if rv(a.exp.an) != 0real {
+        assert(n > 0) by {
+            if n == 0 {
+                assert(a.prod.t@.len() == 0);
+                assert(a.exp.nepus_t@.len() == 0 && a.exp.grid_t@.len() == 0);
+                assert(sumf(a.exp.nepus_t@) == 0real && sumf(a.exp.grid_t@) == 0real);
+            }
+        }
+        assert forall|src: ProdSource, dd: Dest, st: Step| a.exp.by_src_an@.contains_key(src) && dd != Dest::SUMINISTRO implies #[trigger] has_fp(f, c, ps_source(src), dd, st) by {
+            assert(a.prod.by_src_t@.contains_key(src));
+            lemma_src_component(cs, c, a, lm, src);
+            lemma_src_pair(src);
+            if ps_source(src) == Source::COGEN {
+                let j = choose|j: int| 0 <= j < cs.len() && (#[trigger] cs[j]) is Prod && cs[j]->Prod_0.source == src && ps_carrier(src) == c;
+                lemma_any_sel_intro(cs, Sel::Prod(ProdSource::EL_COGEN), j);
+                assert(has_cgn_prod(cs));
+            }
+            lemma_c07_has(x, d, r, f, cs, c, ps_source(src), dd, st);
+        }
+        assert(favg_ok(f, c, a.exp.by_src_an@, Dest::A_NEPB, Step::A) && favg_ok(f, c, a.exp.by_src_an@, Dest::A_NEPB, Step::B)
+            && favg_ok(f, c, a.exp.by_src_an@, Dest::A_RED, Step::A) && favg_ok(f, c, a.exp.by_src_an@, Dest::A_RED, Step::B));
+    }
+}
+pub proof fn lemma_any_sel_intro(cs: Seq<Energy>, k: Sel, j: int)
+    requires 0 <= j < cs.len(), sel(k, cs[j]),
+    ensures any_sel(cs, k),
+    decreases cs.len(),
+{
+    if j < cs.len() - 1 { assert(cs.drop_last()[j] == cs[j]); lemma_any_sel_intro(cs.drop_last(), k, j); }
+}
+/// ... and the derived cogeneration factors can be computed: every fuel burnt for cogeneration has its grid supply factor
+pub proof fn thm_c07_complete_cgn(x: Factors, d: UserWF<RenNrenCo2>, r: Result<Factors>, cs: Seq<Energy>, only_nearby: bool)
+    requires norm_post(x, d, r), r is Ok, carriers_covered(cs, x.wdata@),
+    ensures cgn_factors_ok(r->Ok_0.wdata@, cs, only_nearby),
+{
+    let w = r->Ok_0.wdata@;
+    assert forall|fuel: Carrier| cgn_uses(cs, only_nearby, fuel) implies #[trigger] has_fp(w, fuel, Source::RED, Dest::SUMINISTRO, Step::A) by {
+        lemma_cgnfuel_avail(cs, fuel);
+        assert(carrier_in(x.wdata@, fuel));
+        assert(find_spec(w, fuel, Source::RED, Dest::SUMINISTRO, Step::A) is Some);
+    }
+}
+/// C07 (unusable sets are rejected): a set with a carrier that lacks its grid supply factor is not accepted
+pub proof fn thm_c07_unusable_rejected(x: Factors, d: UserWF<RenNrenCo2>, r: Result<Factors>, c: Carrier)
+    requires norm_post(x, d, r), carrier_in(x.wdata@, c), find_spec(x.wdata@, c, Source::RED, Dest::SUMINISTRO, Step::A) is None,
+             !forced_key(c, Source::RED, Dest::SUMINISTRO, Step::A), !((c == Carrier::RED1 || c == Carrier::RED2)),
+    ensures r is Err,
+{
+    if r is Ok {
+        let w = r->Ok_0.wdata@;
+        assert(find_spec(w, c, Source::RED, Dest::SUMINISTRO, Step::A) is Some);
+        assert(!added_key(c, Source::RED, Dest::SUMINISTRO, Step::A)) by {
+            if exists|j: int| 0 <= j < 3 && c == exp_pair(j).0 && Source::RED == exp_pair(j).1 && (Dest::SUMINISTRO == Dest::A_RED || Dest::SUMINISTRO == Dest::A_NEPB) { }
+        }
+    }
+}
